@@ -135,6 +135,15 @@ class Opaque:
 UNIT = Tup(())
 
 
+class TailCall:
+    """returned by a model: continue by calling `fvalue(args)` at MIR level (a pushed frame, so that visible
+    operations inside it can end a bmc edge); its result becomes the result of the modelled call"""
+    __slots__ = ("f", "args")
+
+    def __init__(self, f, args):
+        self.f, self.args = f, list(args)
+
+
 class Panic(Exception):
     def __init__(self, msg, where=""):
         Exception.__init__(self, msg)
@@ -424,6 +433,7 @@ class Interp:
         self.models_used = set()
         self.enum_discr = dict(DISCR)
         self.hooks = {}             # name -> python callable overriding a MIR fn
+        self.redirects = {}         # name -> name of the MIR function to run instead
 
     # -- callee resolution
     def find_model(self, name):
@@ -460,7 +470,10 @@ class Interp:
             return self.run_fn(ctx, res[1], res[2])
         name = res[3] if len(res) > 3 else callee
         self.models_used.add(canon_callee(name))
-        return res[1](self, ctx, name, res[2])
+        r = res[1](self, ctx, name, res[2])
+        if isinstance(r, TailCall):
+            return self.call_value(ctx, r.f, r.args)
+        return r
 
     def closure_body(self, cname):
         for pr in self.progs:
@@ -500,6 +513,12 @@ class Interp:
         fn = self.find_fn(c, len(args))
         if fn is None:
             raise Inconclusive("no MIR body and no model for callee `%s`" % callee)
+        if fn.name in self.redirects:
+            # replace a function of the repository by an environment function written in the drivers crate
+            tgt = self.find_fn(self.redirects[fn.name], None)
+            if tgt is None:
+                raise Inconclusive("redirect target %s missing" % self.redirects[fn.name])
+            return ("mir", tgt, args)
         if fn.name in self.hooks:
             return ("model", lambda it, cx, cal, ar: self.hooks[fn.name](it, cx, fn, ar), args)
         return ("mir", fn, args)
@@ -580,6 +599,13 @@ class Interp:
                     ctx.on_visible(self, stack, canon_callee(name), res[1])
                 self.models_used.add(canon_callee(name))
                 r = res[1](self, ctx, name, res[2])
+                if isinstance(r, TailCall):
+                    res2 = self.resolve_value(r.f, r.args)
+                    if res2[0] == "mir":
+                        fr.mid = True
+                        stack.append(self.new_frame(res2[1], res2[2]))
+                        continue
+                    r = res2[1](self, ctx, res2[3] if len(res2) > 3 else "<value>", res2[2])
                 if t.f["bb"] is None:
                     raise Panic("diverging call returned: " + callee, fn.name)
                 if t.f["dest"] is not None:
